@@ -51,100 +51,6 @@ Definition lit_kind (n : nit) (s : string) : numkind :=
   | NFraction => KFraction
   end.
 
-(** * Defect switch for F16 (DESIGN §2.6).  [go_fixed] is [Eval.go] with the repaired "("
-    branch: an implicit operation before a parenthesised group obeys the same priority test as
-    one before a NUMBER/NAME, and the group is parsed by a call with [prev = ""] starting at
-    the "(" token.  The harness replays the witness [6/2(1+2)] on the implementation and selects
-    [build] (defect present) or [build_fixed] (repaired) for the correspondence. *)
-Section BuildFixed.
-  Context (tbl : list (string * Z)) (toks : list tok).
-  Fixpoint go_fixed (fuel : nat) (index depth : nat) (prev : string) (result : option tree)
-    : res (tree * nat) :=
-    match fuel with
-    | O => Err EFuel
-    | S f =>
-      match tok_at toks index with
-      | None => Err EIndex
-      | Some cur =>
-        let tail (result' : option tree) (index' : nat) : res (tree * nat) :=
-          match tok_at toks index' with
-          | None => Err EIndex
-          | Some TEnd =>
-              if String.eqb prev "(" then Err EUnclosed
-              else match result' with None => Err EAssert | Some r => Ok (r, index') end
-          | Some _ =>
-              if Nat.leb (ntoks toks) (index' + 1) then Err EUnexpectedEnd
-              else go_fixed f (index' + 1) depth prev result'
-          end in
-        match cur with
-        | TOp ")" =>
-            if String.eqb prev "<none>" then Err EUnopened
-            else match result with
-                 | None => Err EAssert
-                 | Some r => if String.eqb prev "(" then Ok (r, index) else Ok (r, pred index)
-                 end
-        | TOp "(" =>
-            match result with
-            | Some r =>
-                if Z.leb (prio_d tbl "") (prio_d tbl prev) then Ok (r, pred index)
-                else match go_fixed f index (depth + 1) "" None with
-                     | Err e => Err e
-                     | Ok (rt, index') => tail (Some (Eval.Bin "" r rt)) index'
-                     end
-            | None =>
-                match go_fixed f (index + 1) 0 "(" None with
-                | Err e => Err e
-                | Ok (rt, index') =>
-                    match tok_at toks index' with
-                    | None => Err EIndex
-                    | Some t =>
-                        if negb (bool_decide (t = TOp ")")) then Err EWeird
-                        else tail (Some rt) index'
-                    end
-                end
-            end
-        | TOp o =>
-            match prio tbl o with
-            | None => tail result index
-            | Some p =>
-                match result with
-                | Some r =>
-                    if Z.leb p (prio_d tbl prev) && negb (String.eqb o "**" || String.eqb o "^")
-                    then Ok (r, pred index)
-                    else match go_fixed f (index + 1) (depth + 1) o None with
-                         | Err e => Err e
-                         | Ok (rt, index') => tail (Some (Eval.Bin o r rt)) index'
-                         end
-                | None =>
-                    match go_fixed f (index + 1) (depth + 1) "unary" None with
-                    | Err e => Err e
-                    | Ok (rt, index') => tail (Some (Un o rt)) index'
-                    end
-                end
-            end
-        | TNum _ | TName _ =>
-            match result with
-            | Some r =>
-                if Z.leb (prio_d tbl "") (prio_d tbl prev) then Ok (r, pred index)
-                else match go_fixed f index (depth + 1) "" None with
-                     | Err e => Err e
-                     | Ok (rt, index') => tail (Some (Eval.Bin "" r rt)) index'
-                     end
-            | None => tail (Some (Leaf cur)) index
-            end
-        | TOther | TEnd => tail result index
-        end
-      end
-    end.
-End BuildFixed.
-Definition build_fixed (tbl : list (string * Z)) (toks : list tok) : res tree :=
-  match go_fixed tbl toks (build_fuel toks) 0 0 "<none>" None with
-  | Ok (t, _) => Ok t
-  | Err e => Err e
-  end.
-(** [f16 = true]: the implementation shows the defect *)
-Definition build_q (f16 : bool) := if f16 then build else build_fixed.
-
 (** * Concise uncertainty notation [N.ddd(uu)] ([uncertainty_tokenizer], third branch): the text of
     the standard-deviation token when the nominal value is a plain decimal with [ndec] decimals and
     the parenthesised part is all digits: pad with zeros to [ndec + 1] characters and put the
@@ -186,19 +92,21 @@ Inductive c07case :=
 
 Definition toks_eqb (a b : list tok) : bool := bool_decide (a = b).
 
-Definition build_ok (f16 : bool) (tbl : list (string * Z)) (toks : list tok) (r : bres) : bool :=
-  match build_q f16 tbl toks, r with
+(** [pa], [pe]: the two switches of [Eval.go_p]; the harness passes the values the translator read
+    from the source (Gen/EvalTables.v) *)
+Definition build_ok (pa pe : bool) (tbl : list (string * Z)) (toks : list tok) (r : bres) : bool :=
+  match build_p pa pe tbl toks, r with
   | Ok t, BTree s => String.eqb (show_tree t) s
   | Err e, BErr c => ecls_eqb (cls_of e) c
   | _, _ => false
   end.
 Definition render_ok (s : style) (e : expr) (toks : list tok) (shown : string) : bool :=
   legal e && toks_eqb (render s e) toks && String.eqb (show_tree (tree_of (strip e))) shown.
-Definition c07_ok (f16 : bool) (tbl : list (string * Z)) (c : c07case) : bool :=
+Definition c07_ok (pa pe : bool) (tbl : list (string * Z)) (c : c07case) : bool :=
   match c with
-  | KBuild toks r => build_ok f16 tbl toks r
+  | KBuild toks r => build_ok pa pe tbl toks r
   | KRender s e toks shown => render_ok s e toks shown
-  | KTree s e toks shown r => render_ok s e toks shown && build_ok f16 tbl (toks ++ [TOther; TEnd]) r
+  | KTree s e toks shown r => render_ok s e toks shown && build_ok pa pe tbl (toks ++ [TOther; TEnd]) r
   | KLegal e b => eqb (legal e) b
   | KLit n s k => numkind_eqb (lit_kind n s) k
   | KLitVal s v => is_int_lit s && N.eqb (lit_int_value s) v
